@@ -171,13 +171,11 @@ func WeightedMedian(infos []PriceInfo) (price uint64, ok bool, diag MedianDiag) 
 	return
 }
 
-// AdmissibleMedians returns the results of the procedure over the orders of entries that the
-// README leaves open (entries equal in both timestamp and power), at most limit orders.
-// complete=false when the enumeration was cut.
-func AdmissibleMedians(infos []PriceInfo, limit int) (set map[uint64]bool, complete bool) {
+// MedianAdmissible reports whether got is a result of the procedure under some order of the
+// entries that the README leaves open (entries equal in both timestamp and power). At most limit
+// orders are tried; complete=false when the enumeration was cut before got was found.
+func MedianAdmissible(infos []PriceInfo, got uint64, limit int) (admissible, complete bool) {
 	av := medOrderAvailable(infos)
-	set = map[uint64]bool{}
-	// groups of full ties
 	type grp struct{ from, to int }
 	var groups []grp
 	for i := 0; i < len(av); {
@@ -192,51 +190,59 @@ func AdmissibleMedians(infos []PriceInfo, limit int) (set map[uint64]bool, compl
 	}
 	count := 0
 	complete = true
-	var rec func(g int)
-	rec = func(g int) {
-		if !complete {
-			return
+	stop := false
+	var rec func(g int) bool
+	rec = func(g int) bool {
+		if stop {
+			return false
 		}
 		if g == len(groups) {
 			if count >= limit {
-				complete = false
-				return
+				complete, stop = false, true
+				return false
 			}
 			count++
 			cp := append([]PriceInfo(nil), av...)
-			if p, ok := medianOrdered(cp, nil); ok {
-				set[p] = true
+			if p, ok := medianOrdered(cp, nil); ok && p == got {
+				admissible, stop = true, true
 			}
-			return
+			return !stop
 		}
 		sub := av[groups[g].from:groups[g].to]
-		medPermute(sub, 0, func() { rec(g + 1) })
+		return medPermute(sub, 0, func() bool { return rec(g + 1) })
 	}
 	rec(0)
+	if admissible {
+		complete = true
+	}
 	return
 }
 
-func medPermute(xs []PriceInfo, k int, visit func()) {
+// medPermute visits the permutations of xs[k:] in place; visit returns false to stop.
+func medPermute(xs []PriceInfo, k int, visit func() bool) bool {
 	if k == len(xs) {
-		visit()
-		return
+		return visit()
 	}
 	for i := k; i < len(xs); i++ {
 		xs[k], xs[i] = xs[i], xs[k]
-		medPermute(xs, k+1, visit)
+		cont := medPermute(xs, k+1, visit)
 		xs[k], xs[i] = xs[i], xs[k]
+		if !cont {
+			return false
+		}
 	}
+	return true
 }
 
 // AggDiag reports which boundaries of the status rule the input sat on.
 type AggDiag struct {
-	Total, Avail, Unsup    *big.Int
-	AvailExactlyHalf       bool
-	UnsupExactlyHalf       bool
-	TotalEqQuorum          bool
-	TotalJustBelowQuorum   bool
-	Median                 MedianDiag
-	MedianUndefined        bool // rule says AVAILABLE but there is nothing to take a median of
+	Total, Avail, Unsup  *big.Int
+	AvailExactlyHalf     bool
+	UnsupExactlyHalf     bool
+	TotalEqQuorum        bool
+	TotalJustBelowQuorum bool
+	Median               MedianDiag
+	MedianUndefined      bool // rule says AVAILABLE but there is nothing to take a median of
 }
 
 // Aggregate is the status rule of the property plus the median:
